@@ -34,8 +34,16 @@ import (
 	"time"
 )
 
+// repoDir is /repo; VERIF_REPO exists for development only (sensitivity runs
+// against a scratch worktree with a seeded change while /repo stays untouched).
+var repoDir = func() string {
+	if d := os.Getenv("VERIF_REPO"); d != "" {
+		return d
+	}
+	return "/repo"
+}()
+
 const (
-	repoDir  = "/repo"
 	goBin    = "go1.26.8"
 	rapidReq = "require pgregory.net/rapid v1.3.0\n"
 	rapidSum = "pgregory.net/rapid v1.3.0 h1:vBvO0VSqti75J1jjYqpgPNBLKMd1+gxa9fYo7vk/Exc=\npgregory.net/rapid v1.3.0/go.mod h1:dPlE4OBBxgXPqkP79flB6sJL1dx5azpI7HQ9MY9Z7uk=\n"
